@@ -195,7 +195,85 @@ def end_to_end():
                         bound="3 function specifications x 3 backends through the real executor", detail=bad[0] if bad else "", input=bad[1] if bad else None))
 
 
-for fn, nm in ((unit_level, "C11/process_ast_node/bounded"), (end_to_end, "C11/bounded:end_to_end_substitution")):
+def two_functions():
+    "two injected functions / a function and a method in one query: every call site gets the code, includes and arity of its OWN function"
+    sys.path.insert(0, os.path.dirname(os.path.dirname(os.path.abspath(__file__))))
+    import replay_drivers as RD
+    evals, bad = 0, None
+    mds = [dict(metadata_type="add_cpp_function", name="FuncA", include_files=["fa.h"], arguments=["x"], code=["auto ra = codeA(x);"], result_name="ra", return_type="double"),
+           dict(metadata_type="add_cpp_function", name="FuncB", include_files=["fb.h"], arguments=["x", "y"], code=["auto rb = codeB(x, y);"], result_name="rb", return_type="double"),
+           dict(metadata_type="add_cpp_function", name="FuncC", include_files=["fc.h"], arguments=[], code=["auto rc = codeC();"], result_name="rc", return_type="int")]
+    for order in itertools.permutations(range(3)):
+        for backend in ("atlas", "cms_aod", "cms_miniaod"):
+            ds = RD._dataset()
+            for k in order:
+                ds = ds.MetaData(mds[k])
+            coll = "e.Jets('J')" if backend == "atlas" else "e.Muons('J')"
+            q = ds.SelectMany("lambda e: " + coll).Select("lambda j: (FuncA(j.pt()), FuncB(j.pt(), j.eta()), FuncC())").AsROOTTTree("f.root", "t", ["a", "b", "c"])
+            try:
+                info, files = RD.translate(q, backend)
+            except Exception as e:  # noqa
+                bad = bad or ("translation raised %r" % (e,), dict(order=order, backend=backend))
+                continue
+            evals += 1
+            text = "".join(v for k, v in files.items() if k.endswith((".cxx", ".cc")))
+            for nm, marker, inc in (("FuncA", "codeA(", "fa.h"), ("FuncB", "codeB(", "fb.h"), ("FuncC", "codeC(", "fc.h")):
+                if text.count(marker) != 1 or inc not in text:
+                    bad = bad or ("%s backend, functions declared in order %r: the call of %s is not expanded to its own code exactly once with its include (%s x%d, %s %s)" % (
+                        backend, [mds[k]["name"] for k in order], nm, marker, text.count(marker), inc, "present" if inc in text else "missing"), dict(order=order, backend=backend))
+    results.append(dict(name="C11/bounded:each_call_site_gets_its_own_function", kind="bounded", status="violation" if bad else "ok", evaluations=evals, distinct=evals, exhaustive=True,
+                        bound="3 injected functions (arity 1, 2, 0) declared in every order x 3 backends through the real executor", detail=bad[0] if bad else "", input=bad[1] if bad else None))
+
+
+def late_binding_lint():
+    """static obligation (AST of the real sources, every run): a callback created inside a loop or comprehension and kept beyond the iteration
+    (dict / list element, attribute, appended, returned) must not read the iteration variable as a free variable -- Python binds it late, so
+    every callback would see the LAST element (the call-site table of injected functions and collections is built this way)."""
+    REPO = os.environ.get("PYVC_REPO", "/repo")
+    bad, n = [], 0
+    for d, _, fs in os.walk(os.path.join(REPO, "func_adl_xAOD")):
+        for f in fs:
+            if not f.endswith(".py") or os.sep + "template" + os.sep in os.path.join(d, f):
+                continue
+            path = os.path.join(d, f)
+            tree = ast.parse(open(path, encoding="utf-8").read())
+            parents = {}
+            for node in ast.walk(tree):
+                for ch in ast.iter_child_nodes(node):
+                    parents[ch] = node
+            for lam in [x for x in ast.walk(tree) if isinstance(x, (ast.Lambda, ast.FunctionDef))]:
+                # iteration variables of enclosing loops / comprehensions inside the same function
+                itvars, p, kept, child = set(), parents.get(lam), False, lam
+                while p is not None and not isinstance(p, (ast.FunctionDef, ast.AsyncFunctionDef, ast.ClassDef, ast.Module)) or (isinstance(p, ast.FunctionDef) and p is lam):
+                    if isinstance(p, (ast.For, ast.AsyncFor)) and child in p.body + p.orelse:
+                        itvars |= {x.id for x in ast.walk(p.target) if isinstance(x, ast.Name)}
+                    if isinstance(p, (ast.ListComp, ast.SetComp, ast.DictComp, ast.GeneratorExp)):
+                        for g in p.generators:
+                            itvars |= {x.id for x in ast.walk(g.target) if isinstance(x, ast.Name)}
+                        if isinstance(p, (ast.ListComp, ast.SetComp, ast.DictComp)):
+                            kept = True
+                    if isinstance(p, (ast.Dict, ast.List, ast.Tuple, ast.Return)) or (isinstance(p, ast.Assign)) or \
+                            (isinstance(p, ast.Call) and isinstance(p.func, ast.Attribute) and p.func.attr in ("append", "update", "setdefault", "extend", "insert", "add")):
+                        kept = True
+                    child, p = p, parents.get(p)
+                if not itvars:
+                    continue
+                n += 1
+                a = lam.args
+                bound = {x.arg for x in a.posonlyargs + a.args + a.kwonlyargs} | ({a.vararg.arg} if a.vararg else set()) | ({a.kwarg.arg} if a.kwarg else set())
+                body = lam.body if isinstance(lam, ast.Lambda) else ast.Module(body=lam.body, type_ignores=[])
+                local_store = {x.id for x in ast.walk(body) if isinstance(x, ast.Name) and isinstance(x.ctx, ast.Store)}
+                free = {x.id for x in ast.walk(body) if isinstance(x, ast.Name) and isinstance(x.ctx, ast.Load)} - bound - local_store
+                late = sorted(free & itvars)
+                if late and kept:
+                    bad.append("%s:%d a callback kept beyond the iteration reads the iteration variable %s as a free variable (bound late: every callback sees the last element)" % (
+                        os.path.relpath(path, REPO), lam.lineno, ", ".join(late)))
+    results.append(dict(name="C11/static:callbacks_bind_their_own_specification", kind="static", status="violation" if bad else "ok", detail="; ".join(bad), input=bad or None))
+    results.append(dict(name="C11/static:callbacks_scanned", kind="static", status="ok", detail="%d callbacks created inside loops / comprehensions" % n))
+
+
+for fn, nm in ((unit_level, "C11/process_ast_node/bounded"), (end_to_end, "C11/bounded:end_to_end_substitution"),
+               (two_functions, "C11/bounded:each_call_site_gets_its_own_function"), (late_binding_lint, "C11/static:callbacks_bind_their_own_specification")):
     try:
         fn()
     except Exception as e:  # noqa
